@@ -211,8 +211,15 @@ func (mt *MarkdownTable) emitRow(
 			return err
 		}
 	}
-	if _, err := fmt.Fprint(w, mt.mdPaddedCellEscape(cells, widths, alignments, i), barRight); err != nil {
-		return err
+	if max > 0 {
+		if _, err := fmt.Fprint(w, mt.mdPaddedCellEscape(cells, widths, alignments, i), barRight); err != nil {
+			return err
+		}
+	} else {
+		// a row without any cells: the first column is padding too
+		if _, err := io.WriteString(w, barRight); err != nil {
+			return err
+		}
 	}
 	i++
 	for ; i < columnCount; i++ {
